@@ -2,6 +2,7 @@ package main
 
 import (
 	"fmt"
+	"regexp"
 	"strings"
 	"time"
 )
@@ -14,9 +15,10 @@ import (
 // final values of the package-level variables; second reference: compiled Go.
 
 type c11bgen struct {
-	r     *rng
-	nLoc  int
-	depth int
+	commaOK bool // v, ok := m[k] at the top level (region assert-define: panics in the host today)
+	r       *rng
+	nLoc    int
+	depth   int
 }
 
 type c11bscope struct {
@@ -185,8 +187,127 @@ func (g *c11bgen) stmt(sc c11bscope, depth int, inLoop bool) ([]string, c11bscop
 }
 
 type c11bprog struct {
-	Decls []string
-	Body  [][]string // top-level statements of main, each possibly several lines
+	Decls   []string
+	Body    [][]string // top-level statements of main, each possibly several lines
+	Globals []string   // package-level variables that main does not shadow (compared through Globals())
+	Cells   []string   // top-level definition forms the program contains
+}
+
+// top-level definitions of main's body: multi-value definitions, REDECLARATIONS (a, e := f() then b, e := f()),
+// captures of such variables by closures and pointers before a redeclaration, comma-ok forms, and locals
+// that SHADOW a package-level variable of the same name and type (whole program: a local of main;
+// piecewise: a second definition in the global scope, while functions keep reading the first).
+type c11btop struct {
+	multi    []string // int variables introduced by a multi-value definition
+	captured map[string]bool
+	ptrs     [][2]string // pointer local, variable it points to
+	oks      [][2]string // ok variable, value variable of a comma-ok definition
+	shadowed map[string]bool
+}
+
+func (g *c11bgen) topForm(kind int, sc c11bscope, t *c11btop, p *c11bprog) c11bscope {
+	add := func(lines ...string) {
+		for _, l := range lines {
+			p.Body = append(p.Body, []string{l})
+		}
+	}
+	cell := func(c string) { p.Cells = append(p.Cells, c) }
+	switch kind {
+	case 0: // a, e := two(x)
+		a, e := g.fresh("a"), g.fresh("e")
+		add(fmt.Sprintf("%s, %s := two(%s)", a, e, g.pure(sc, 1)), "_, _ = "+a+", "+e)
+		t.multi = append(t.multi, e)
+		cell("multi-define")
+		return sc.with([]string{a, e}, []string{a, e})
+	case 1: // capture by a closure or by a pointer
+		if len(t.multi) == 0 {
+			return sc
+		}
+		e := t.multi[g.r.intn(len(t.multi))]
+		if g.r.bool() {
+			add(fmt.Sprintf("fs = append(fs, func() int { return %s + %s })", e, g.konst()))
+			cell("capture-closure")
+		} else {
+			q := g.fresh("q")
+			add(fmt.Sprintf("%s := &%s", q, e), "_ = "+q)
+			t.ptrs = append(t.ptrs, [2]string{q, e})
+			cell("capture-pointer")
+		}
+		t.captured[e] = true
+	case 2: // b, e := two(y): e is redeclared (same variable), b is new
+		if len(t.multi) == 0 {
+			return sc
+		}
+		e := t.multi[g.r.intn(len(t.multi))]
+		b := g.fresh("b")
+		add(fmt.Sprintf("%s, %s := two(%s)", b, e, g.pure(sc, 1)), "_ = "+b)
+		cell("redeclare")
+		if t.captured[e] {
+			cell("capture-before-redeclare")
+		}
+		return sc.with([]string{b}, []string{b})
+	case 3: // write, then read through the captures
+		if len(t.multi) == 0 {
+			return sc
+		}
+		e := t.multi[g.r.intn(len(t.multi))]
+		add(fmt.Sprintf("%s = %s", e, g.pure(sc, 1)))
+		for _, q := range t.ptrs {
+			if q[1] == e {
+				add(fmt.Sprintf("*%s += %s", q[0], g.konst()), fmt.Sprintf("fmt.Println(*%s, %s)", q[0], e))
+			}
+		}
+		add("run()", fmt.Sprintf("fmt.Println(%s)", e))
+	case 4: // v, ok := mp[k], captured
+		v, ok := g.fresh("v"), g.fresh("ok")
+		add(fmt.Sprintf("%s, %s := mp[%d]", v, ok, g.r.intn(4)), "_, _ = "+v+", "+ok,
+			fmt.Sprintf("fs = append(fs, func() int { if %s { return %s }; return -1 })", ok, v))
+		t.oks = append(t.oks, [2]string{ok, v})
+		cell("comma-ok")
+		return sc.with([]string{v}, []string{v})
+	case 5: // w, ok := mp[k2]: ok redeclared after its capture
+		if len(t.oks) == 0 {
+			return sc
+		}
+		o := t.oks[g.r.intn(len(t.oks))]
+		w := g.fresh("w")
+		add(fmt.Sprintf("%s, %s := mp[%d]", w, o[0], g.r.intn(6)), "_ = "+w, "run()", fmt.Sprintf("fmt.Println(%s, %s)", w, o[0]))
+		cell("comma-ok-redeclare")
+		return sc.with([]string{w}, []string{w})
+	case 6: // a local of main shadows a package-level variable; its initialiser is not a constant
+		var free []string
+		for _, n := range []string{"g1", "g2", "g3"} {
+			if !t.shadowed[n] {
+				free = append(free, n)
+			}
+		}
+		if len(free) < 2 {
+			return sc
+		}
+		n := free[g.r.intn(len(free))]
+		other := "g1"
+		for _, o := range []string{"g3", "g2", "g1"} {
+			if o != n && !t.shadowed[o] {
+				other = o
+			}
+		}
+		// the initialiser does not mention the shadowed name itself ("g1 := bump(g1)" reads the NEW variable
+		// when fed as a chunk: the same hoisting as region shadow-hoist)
+		var nsc c11bscope
+		for _, v := range sc.read {
+			if v != n {
+				nsc.read = append(nsc.read, v)
+			}
+		}
+		init := fmt.Sprintf("bump(%s)", g.pure(nsc, 1))
+		if g.r.bool() {
+			init = fmt.Sprintf("%s*2 + %s", other, g.konst())
+		}
+		add(fmt.Sprintf("%s := %s", n, init), "_ = "+n, fmt.Sprintf("%s += %s", n, g.konst()), "show()", fmt.Sprintf("fmt.Println(bump(%s), %s)", g.konst(), n))
+		t.shadowed[n] = true
+		cell("shadow-global")
+	}
+	return sc
 }
 
 func (g *c11bgen) program() c11bprog {
@@ -198,11 +319,24 @@ func (g *c11bgen) program() c11bprog {
 		"var fs []func() int",
 		"func bump(a int) int { g1 = g1*2 + a; return g1 - g2 }",
 		"func run() { for _, f := range fs { fmt.Println(f()) }; for _, f := range fs { g3 += f() }; fs = nil }",
+		"func two(a int) (int, int) { g2 += a; return a + g2, a * 2 }",
+		fmt.Sprintf("var mp = map[int]int{0: %d, 1: %d, 2: %d}", g.r.intn(9), g.r.intn(9), g.r.intn(9)),
+		"func show() { fmt.Println(g1, g2, g3) }",
 	}
 	sc := c11bscope{read: []string{"g1", "g2", "g3"}, write: []string{"g1", "g2", "g3"}}
-	n := 6 + g.r.intn(6)
+	n := 8 + g.r.intn(6)
 	compound := 0
+	top := &c11btop{captured: map[string]bool{}, shadowed: map[string]bool{}}
+	// the forms in an order that makes every one of them meaningful, spread among the other statements
+	script := map[int]int{1: 0, 2: 4, 3: 1, 4: 2, 5: 3, 6: 6, 7: 5, 8: 1, 9: 2, 10: 3}
 	for i := 0; i < n || compound < 2; i++ {
+		if k, ok := script[i]; ok && (k < 4 || g.r.chance(70)) && (g.commaOK || (k != 4 && k != 5)) {
+			sc = g.topForm(k, sc, top, &p)
+		} else if i > 10 && g.r.chance(30) {
+			if k := g.r.intn(7); g.commaOK || (k != 4 && k != 5) {
+				sc = g.topForm(k, sc, top, &p)
+			}
+		}
 		st, nsc := g.stmt(sc, 2, false)
 		sc = nsc
 		if strings.HasSuffix(st[0], "{") {
@@ -218,7 +352,12 @@ func (g *c11bgen) program() c11bprog {
 			p.Body = append(p.Body, []string{l})
 		}
 	}
-	p.Body = append(p.Body, []string{"run()"}, []string{"fmt.Println(g1, g2, g3)"})
+	p.Body = append(p.Body, []string{"run()"}, []string{"fmt.Println(g1, g2, g3)"}, []string{"show()"})
+	for _, n := range []string{"g1", "g2", "g3"} {
+		if !top.shadowed[n] {
+			p.Globals = append(p.Globals, n)
+		}
+	}
 	return p
 }
 
@@ -234,6 +373,33 @@ func (p c11bprog) whole() string {
 	return b.String()
 }
 
+var c11shadowRe = regexp.MustCompile(`^g[123] := `)
+
+func c11hasShadow(stmts []string) bool {
+	for _, s := range stmts {
+		if c11shadowRe.MatchString(s) {
+			return true
+		}
+	}
+	return false
+}
+
+// c11splitAtShadow makes every shadowing definition the first statement of its chunk.
+func c11splitAtShadow(pieces [][]string) [][]string {
+	var out [][]string
+	for _, p := range pieces {
+		start := 0
+		for i, s := range p {
+			if i > start && c11shadowRe.MatchString(s) {
+				out = append(out, p[start:i])
+				start = i
+			}
+		}
+		out = append(out, p[start:])
+	}
+	return out
+}
+
 // c11blocks runs the structured-body stream.
 func c11blocks(r *rng, n int, sm *summary, distinct distinctSet, id *int) error {
 	type job struct {
@@ -244,12 +410,12 @@ func c11blocks(r *rng, n int, sm *summary, distinct distinctSet, id *int) error 
 		res    c11richRun
 		ref    string
 		whole  *job
+		region string
 	}
-	globals := []string{"g1", "g2", "g3"}
 	var jobs []*job
 	var refs []goProg
 	for k := 0; k < n; k++ {
-		g := &c11bgen{r: r.fork()}
+		g := &c11bgen{r: r.fork(), commaOK: k%8 == 7}
 		p := g.program()
 		name := fmt.Sprintf("b%05d", k)
 		refs = append(refs, goProg{Name: name, Files: map[string]string{"main.go": p.whole()}})
@@ -268,15 +434,37 @@ func c11blocks(r *rng, n int, sm *summary, distinct distinctSet, id *int) error 
 			for _, d := range c11cutStrings(r, p.Decls, 2) {
 				chunks = append(chunks, strings.Join(d, "\n"))
 			}
+			mode := []int{c11Eval, c11CompileExecute, c11CompileAll, c11Eval}[c]
+			region := ""
+			var pieces [][]string
 			if c == 3 {
-				chunks = append(chunks, strings.Join(stmts, "\n"))
+				pieces = [][]string{stmts}
 			} else {
-				for _, b := range c11cutStrings(r, stmts, avg) {
-					chunks = append(chunks, strings.Join(b, "\n"))
+				pieces = c11cutStrings(r, stmts, avg)
+			}
+			// a local that shadows a package-level variable: on the unchanged tree the new definition is
+			// entered by gta for the whole chunk, so earlier statements of the SAME chunk see it (region
+			// shadow-hoist), and compiling later chunks before executing earlier ones makes the first
+			// definition depend on the second (region var-xdep). Main stream: the shadowing definition
+			// starts its chunk and the chunks are executed as they are compiled.
+			if c11hasShadow(stmts) {
+				switch c {
+				case 0, 1:
+					pieces = c11splitAtShadow(pieces)
+				case 2:
+					region = "var-xdep"
+					pieces = c11splitAtShadow(pieces)
+				case 3:
+					region = "shadow-hoist"
 				}
 			}
-			mode := []int{c11Eval, c11CompileExecute, c11CompileAll, c11Eval}[c]
-			jobs = append(jobs, &job{prog: p, kind: "pieces", mode: mode, chunks: chunks, ref: name, whole: w})
+			if g.commaOK {
+				region = "assert-define" // v, ok := m[k] at the top level panics in the host today
+			}
+			for _, b := range pieces {
+				chunks = append(chunks, strings.Join(b, "\n"))
+			}
+			jobs = append(jobs, &job{prog: p, kind: "pieces", mode: mode, chunks: chunks, ref: name, whole: w, region: region})
 		}
 	}
 	var refRes map[string]outcome
@@ -288,7 +476,7 @@ func c11blocks(r *rng, n int, sm *summary, distinct distinctSet, id *int) error 
 	}()
 	parallelMap(len(jobs), 0, func(k int) {
 		j := jobs[k]
-		j.res = c11richSession(j.mode, j.chunks, false, j.kind == "pieces", globals)
+		j.res = c11richSession(j.mode, j.chunks, false, j.kind == "pieces", j.prog.Globals)
 	})
 	<-done
 	if refErr != nil {
@@ -306,19 +494,22 @@ func c11blocks(r *rng, n int, sm *summary, distinct distinctSet, id *int) error 
 				sm.count("blocks:has:" + strings.TrimSpace(form))
 			}
 		}
+		for _, c := range j.prog.Cells {
+			sm.count("blocks:cell:" + c)
+		}
 		distinct.add(fmt.Sprint(in))
 		ref := refRes[j.ref]
 		if ref.End != "ok" {
 			return fmt.Errorf("structured reference program %s did not run: %+v\n%s", j.ref, ref, j.prog.whole())
 		}
 		if j.res.Err != "" || j.res.Stdout != ref.Stdout {
-			sm.RefMismatches = append(sm.RefMismatches, refMismatch{ID: *id, Region: "", Input: in, Impl: j.res, Ref: ref.Stdout, Note: "reference: compiled Go (same statements inside func main)"})
+			sm.RefMismatches = append(sm.RefMismatches, refMismatch{ID: *id, Region: j.region, Input: in, Impl: j.res, Ref: ref.Stdout, Note: "reference: compiled Go (same statements inside func main)"})
 			continue
 		}
 		if j.whole != nil {
 			sm.RefComparisons++
 			if j.res.Stdout != j.whole.res.Stdout || j.res.Globals != j.whole.res.Globals {
-				sm.RefMismatches = append(sm.RefMismatches, refMismatch{ID: *id, Region: "", Input: in, Impl: j.res, Ref: j.whole.res, Note: "reference: yaegi, same statements inside func main in one Eval"})
+				sm.RefMismatches = append(sm.RefMismatches, refMismatch{ID: *id, Region: j.region, Input: in, Impl: j.res, Ref: j.whole.res, Note: "reference: yaegi, same statements inside func main in one Eval"})
 			}
 		}
 	}
